@@ -128,6 +128,9 @@ class BaseProp:
                 out["error"] = "Coq evaluation of shard %d failed (rc=%s): %s" % (i, rc, o[-2000:])
                 return out
             for j, code in enumerate(codes):
+                if code == 4:
+                    out["outside_fragment"] = out.get("outside_fragment", 0) + 1
+                    continue
                 if code == 0:
                     continue
                 rec = {"case": cases[i + j], "impl": observed[i + j], "code": code,
